@@ -503,9 +503,20 @@ func TestC05Handle(t *testing.T) {
 				rt.Skip("no values")
 			}
 			v := proto.Clone(m.Values[0]).(*anypb.Any)
-			if vk := rapid.IntRange(0, 6).Draw(rt, "typeURL"); vk == 0 {
+			if vk := rapid.IntRange(0, 8).Draw(rt, "typeURL"); vk == 0 {
 				v.TypeUrl += "x"
 				how = "type_url"
+			} else if vk >= 7 {
+				// the value travels wrapped in one or two more envelopes: what is attached is then an
+				// envelope, not the data the signed hash stands for
+				for depth := rapid.IntRange(1, 2).Draw(rt, "wrapDepth"); depth > 0; depth-- {
+					w, err := anypb.New(v)
+					if err != nil {
+						rt.Fatalf("HARNESS-ERROR: wrap: %v", err)
+					}
+					v = w
+				}
+				how = "value_wrapped_in_envelope"
 			} else if vk <= 2 {
 				// well-formed extra fields the message type does not know, appended or prepended: bytes of
 				// the value changed, so its hash must no longer match what was signed
